@@ -372,7 +372,9 @@ func lexComment(l *lexer) stateFn {
 
 // lexRightDelim scans the right delimiter, which is known to be present.
 func lexRightDelim(l *lexer) stateFn {
-	trimSpace := strings.HasPrefix(l.input[l.pos:], rightTrimMarker)
+	// the trim marker counts only in front of the delimiter: a delimiter that itself starts like the
+	// marker (" -}") must not be skipped twice
+	trimSpace := strings.HasPrefix(l.input[l.pos:], l.trimRightDelim)
 	if trimSpace {
 		l.pos += trimMarkerLen
 		l.ignore()
